@@ -212,9 +212,68 @@ def check(ctx):
             ctx.bad("R11.symmetry", key, P.where(chk.body), what, how)
         else:
             ctx.inconclusive("R11.symmetry", key, P.where(chk.body), what, how)
-    # ---- block selection formula
+    # ---- block selection, read off the address the block-level function is given (however it is computed:
+    # an index helper, a pointer helper, inline arithmetic): byte offset into the bits = 32 * ((hash >> 32) * n >> 32)
     fo = sem.field_offsets(P, "carquet_bloom_filter")
+    addr_decided = set()
+    for role, f, blkfn in (("insert", ih, ins), ("check", ch, chk)):
+        key = "block-address|%s:%s_hash" % (BF, role)
+        what = ("%s_hash hands the block-level function the 32-byte block at byte offset 32 * (((hash >> 32) * num_blocks) >> 32) of the "
+                "filter's bits, and the same hash%s" % (role, "" if role == "insert" else "; it returns the block test's answer"))
+        seen = []
+
+        def blk_hook(ev, a, it, role=role):
+            seen.append(list(a))
+            return 1 if role == "check" else None
+        heap0 = {("flt", fo["data"]): Ptr("bits", 0, 1), ("flt", fo["num_blocks"]): Sym(NB, 64), ("flt", fo["num_bytes"]): Sym(("*", NB, 32, 64), 64)}
+        if "owns_data" in fo:
+            heap0[("flt", fo["owns_data"])] = 1
+        try:
+            outs = sem.run(P, f, [Ptr("flt", 0, 1), Sym(HASH, 64)], heap0=heap0, hooks={blkfn.name: blk_hook}, single=False, max_forks=16,
+                           budget=50000, on_start=lambda: seen.clear())
+        except sem.Inconclusive:
+            continue
+        # every path must end in exactly one block-level call; the hooks' record is per path, so re-run per path is not
+        # needed when there is a single path (the common case); with several paths fall back to the helper rules
+        if len(outs) != 1 or len(seen) != 1:
+            continue
+        ret, ev, heap = outs[0]
+        ptrs = [x for x in seen[0] if isinstance(x, Ptr) and x.base == "bits"]
+        hashes = [x for x in seen[0] if isinstance(x, Sym) and terms.norm(x.t) in (HASH, ("cast", 32, HASH))]
+        if len(ptrs) != 1 or not isinstance(ptrs[0].off, (Sym, int)):
+            continue
+        off = ptrs[0].off.t if isinstance(ptrs[0].off, Sym) else ptrs[0].off
+        doms = {HASH: terms.SAMPLES64, NB: [1, 2, 3, 4, 7, 8, 31, 64, 1000, 2048, 65536, (1 << 27) - 1]}
+        spec_off = ("*", SPEC_INDEX, 32, 64)
+        wit = None
+        same = terms.norm(off) == terms.norm(spec_off)
+        if not same:
+            for hv in doms[HASH]:
+                for nb in doms[NB]:
+                    env = {HASH: hv, NB: nb}
+                    try:
+                        got, want = terms.evaluate(off, env) if not isinstance(off, int) else off, terms.evaluate(spec_off, env)
+                    except (KeyError, ZeroDivisionError):
+                        got = want = None
+                        break
+                    if got != want and wit is None:
+                        wit = (hv, nb, got, want)
+                if wit:
+                    break
+        addr_decided.add(role)
+        n += 1
+        okh = bool(hashes) and (role != "check" or ret == 1)
+        if wit:
+            ctx.bad("R5.spec", key, P.where(f.body), what, "the block handed on starts at byte %s; for hash %#x and %d blocks that is byte %d, the specification's block starts at byte %d" % (
+                terms.show(terms.norm(off)), wit[0], wit[1], wit[2], wit[3]))
+        elif not okh:
+            ctx.bad("R11.symmetry", key, P.where(f.body), what, "block-level call receives %s, returns %s" % (seen, ret))
+        else:
+            ctx.ok("R5.spec", key, P.where(f.body), what, "offset %s%s" % (terms.show(terms.norm(off)), "" if same else " (equal to the specification on every sampled hash and size)"))
+    # ---- block selection formula (helper form)
     for role, fns_ in (("insert", idx_i), ("check", idx_c)):
+        if role in addr_decided:
+            continue
         key = "block-index-formula|%s:%s" % (BF, "bloom_filter_block_index" if role == "insert" else "check_hash")
         what = "the block used by %s_hash is ((hash >> 32) * num_blocks) >> 32 (Parquet SBBF), computed in 64 bits" % role
         if len(fns_) != 1:
@@ -284,6 +343,8 @@ def check(ctx):
             ctx.ok("R5.spec", key, P.where(g.body), what, "; ".join(v[1] for v in verdicts))
     # ---- the entry points hand the selected block and the hash to the block-level functions
     for role, f, blkfn, idxf in (("insert", ih, ins, idx_i), ("check", ch, chk, idx_c)):
+        if role in addr_decided:
+            continue
         key = "block-index-used|%s:%s_hash" % (BF, role)
         what = "%s_hash works on the 32-byte block selected for the hash, with the same hash%s" % (role, "" if role == "insert" else ", and returns the block test's answer")
         if len(idxf) != 1:
